@@ -78,14 +78,27 @@ def parse_stats(out):
 
 
 def tuples(out, head):
-    """Yield the python form of every printed tuple <<"head", ...>> in TLC's output."""
-    for line in out.splitlines():
-        line = line.strip()
-        if line.startswith('<<"%s"' % head):
-            yield parse_tla(line)
+    """Yield the python form of every printed tuple <<"head", ...>> in TLC's output.
+
+    TLC pretty-prints a value that does not fit on one line over several lines (`<< "FAIL",` / `   12,` ...), so
+    the output is scanned for the opening of such a tuple and parsed from there by bracket matching."""
+    import re
+    for m in re.finditer(r'<<\s*"%s"' % re.escape(head), out):
+        # only at the start of a line: the same text inside a printed string or a nested value is not a report
+        ls = out.rfind("\n", 0, m.start()) + 1
+        if out[ls:m.start()].strip():
+            continue
+        try:
+            yield parse_tla(out[m.start():], prefix=True)
+        except (ValueError, IndexError):
+            # a detail value this parser does not know (a record, say): the report itself must not be lost
+            m2 = re.match(r'<<\s*"%s"\s*,\s*(-?\d+)\s*,\s*"([^"]*)"' % re.escape(head), out[m.start():])
+            if not m2:
+                raise TlcError("unreadable %s report in TLC output near: %r" % (head, out[m.start():m.start() + 300]))
+            yield [head, int(m2.group(1)), m2.group(2), out[m.start():m.start() + 200]]
 
 
-def parse_tla(s):
+def parse_tla(s, prefix=False):
     """Tiny parser for printed TLA+ values made of tuples, ints, strings, booleans."""
     pos = 0
 
